@@ -191,8 +191,6 @@ YStatM(name, tk, RE, CE) ==
 (***************************************************************************)
 (* 1-D partition: rows only.  CE is ignored (pass << >>).                  *)
 (***************************************************************************)
-NoEl == [pos |-> {}, neg |-> {}, item |-> 0, ins |-> 0]
-
 SCount(tk, re, st) == Count(tk, re, NoEl, st)
 SBaseV(tk, RE, st)  == Vec(Len(RE), LAMBDA i : R(TableBase(tk, RE[i], NoEl, st)))
 \* strand counts and proportions; a several-term difference on a categorical-date
